@@ -486,11 +486,12 @@ class C06(vlib.Driver):
 
     def run_seq(self, case):
         p = self.make_param(case["par"])
-        p.value = case["v0"]
+        v = case["v0"]
         rs = []
         for u in case["us"]:
+            p.value = v        # the protocol of rl_hyperparam_mutation: the base is handed in before every call
             with Scripted(rands=[u]) as s:
-                r = p.mutate()
+                r = v = p.mutate()
             s.assert_consumed()
             rs.append([r, type(r).__name__, p.value])
         return {"rs": rs}
@@ -835,8 +836,7 @@ class C06(vlib.Driver):
                                      f"expected {dt}(clip(value*factor)) = {exp!r}"))
             elif bounds_ok and not (par["min"] <= r <= par["max"]):
                 out.append(Violation("in-range", f"value:in-range:{dt}", f"point {i}: result {r!r} outside [{par['min']}, {par['max']}]"))
-            elif cache != r:
-                out.append(Violation("cache", f"value:cache:{dt}", f"point {i}: mutate() returned {r!r} but RLParameter.value is {cache!r}"))
+            # (RLParam.value after the call is bookkeeping since fix 4290930: the caller hands the base in; not a clause)
             if out:
                 # replay only what is needed
                 if case["kind"] == "value":
@@ -920,8 +920,7 @@ class C06(vlib.Driver):
                     if tname != dt:
                         return done(Violation("type", f"pop:type:{algo}:{n}", f"{where}: individual {i}: {n} = {got!r} has type {tname}, configured {dt}"), t)
                     if got != exp:
-                        stale = "stale-cache:" if (case.get("alias") or case.get("donor")) else ""
-                        return done(Violation("own-value-scaled-clip", f"pop:new-value:{stale}{algo}:{n}",
+                        return done(Violation("own-value-scaled-clip", f"pop:new-value:{algo}:{n}",
                                               f"{where}: individual {i}: {n} was {own!r}, draw {u!r} ({'shrink' if u < 0.5 else 'grow'}), {hp[n]}: "
                                               f"now {got!r}, expected {dt}(clip(own value * factor)) = {exp!r}"), t)
                     p = hp[n]
